@@ -39,6 +39,28 @@ CHECKS = {
          'single_eq_singleton, dotall/ignorecase, compiled_flags_kept, other_rejected_before_consumption). Tie: compile_pattern_list output vs the '
          'model on random form lists; metamorphic runs of one regex under every accepted form; invalid objects in every position.',
          'Equal (pattern, flags) pairs select equal occurrences because re.compile is deterministic; the matching itself is C02/C03.', '4/C20'),
+ 'C05': ('Theorems C05.* about the clock skeleton of expect_loop and waitnoecho (expect_deadline: finish <= start + T + 2 eps for every event list '
+         'satisfying the transport contract; no_early_timeout; none_never_times_out; zero_still_examines; negative_expires_at_once; -1 resolution; '
+         'waitnoecho bounds). Tie: the real transports under a virtual clock (every blocking wait, time.time and sleep interposed); each run is '
+         'replayed through the Lean skeleton (same outcome, finish time, contract satisfied); real-time runs with signals.',
+         'Partial: the bound assumes each read returns within its timeout + eps; the pty transport breaks that when the child hangs up without exiting '
+         '(known finding, witness in Props/C05). Virtual clock: non-blocking system calls cost one tick.', '4/C05'),
+ 'C06': ('Theorems C06.* for every peer script and adversarial schedule: pty_reads_conserve (delivered ++ unread = written over any read sequence), '
+         'EOF only when drained and hung up, at most size bytes, sticky EOF; the same for fd / socket (pipe world), socket_timeout_restored, and for '
+         'PopenSpawn (thread + queue + carry-over). Tie: controlled children / pipes / socketpairs with select, poll, os.read, recv and waitpid '
+         'interposed so that peer actions fall between the reader\'s system calls; outcomes compared with the world models + stream oracles; volume runs.',
+         'World models are assumptions about Linux, validated by the same runs. A blocking waitpid on a hung-up live child is forced to finish by the harness.', '4/C06'),
+ 'C07': ('Theorems C07.*: deliver_eq_whole (any chunking through one persistent decoder = decoding the whole stream, for every decoder with the '
+         'chunk law), delivered_eq_decode_whole on the session model, utf8_any_chunking (proved UTF-8 instance incl. round trip), bytes_mode_identity. '
+         'Tie: every cut point / sampled cuts on the four real transports and the asyncio path against CPython\'s whole-stream incremental decoding.',
+         'CPython codecs are assumed to satisfy the chunk law (validated on every run); ill-formed input is judged against the incremental decoder fed at once.', '4/C07'),
+ 'C08': ('Theorems C08.*: peer_receives_concat (op by op, one persistent encoder, one linesep per sendline, one byte per control), '
+         'text_stream_encoded_once, send_returns_written, control table, UTF-8 round trip. Tie: send histories on the four transports with a peer that '
+         'reports byte for byte what it received.',
+         'A blocking write accepts the whole buffer when the peer reads.', '4/C08'),
+ 'C11': ('Theorems C11.*: logs_are_transcript (logfile = reads and sends in operation order, logfile_read / logfile_send the two projections), '
+         'logfile_read_eq_delivered, every_write_flushed. Tie: recording log objects on all transports and log combinations, types checked; interact() sessions.',
+         'Log objects are only observed through write() and flush().', '4/C11'),
 }
 PENDING = {}
 for i in range(5, 21):
